@@ -2,6 +2,9 @@ package props
 
 import (
 	"bytes"
+	"encoding/base64"
+	"encoding/hex"
+	"encoding/pem"
 	"fmt"
 	"os"
 	"os/exec"
@@ -209,6 +212,15 @@ func policyFor(q *ref.Quote, spare int) *validate.Options {
 	}
 }
 
+func wrapText(t string, n int) []byte {
+	var b []byte
+	for len(t) > n {
+		b = append(append(b, t[:n]...), '\n')
+		t = t[n:]
+	}
+	return append(append(b, t...), '\n')
+}
+
 // deepCopyOptions copies a validation options value with all its byte strings (nil stays nil, empty stays empty).
 func deepCopyOptions(o *validate.Options) *validate.Options {
 	cp := func(b []byte) []byte {
@@ -391,6 +403,43 @@ func c16(x *mon.Ctx) {
 					x.Violation("no-write/odd-sized-options", param, prob, "verify", s.c)
 				}
 				x.Note("no-write/odd-sized-options", param, false, pv != "", prob == "")
+			}
+		}
+		// raw inputs that are not a binary quote but another rendering of one (hex dump, wrapped hex, base64, PEM armour):
+		// accepted or (as today) refused, the entry points never write to the caller's buffer
+		for enc, txt := range map[string][]byte{
+			"hex":         []byte(hex.EncodeToString(s.c.Quote)),
+			"hex-upper":   []byte(strings.ToUpper(hex.EncodeToString(s.c.Quote))),
+			"hex-wrapped": wrapText(hex.EncodeToString(s.c.Quote), 60),
+			"hex-spaced":  []byte(strings.Join(strings.Split(hex.EncodeToString(s.c.Quote), "00"), "00 ")),
+			"base64":      []byte(base64.StdEncoding.EncodeToString(s.c.Quote)),
+			"pem":         pem.EncodeToMemory(&pem.Block{Type: "TDX QUOTE", Bytes: s.c.Quote}),
+			"0x-prefixed": []byte("0x" + hex.EncodeToString(s.c.Quote)),
+		} {
+			for _, call := range apiCalls16 {
+				if !strings.Contains(call.name, "Raw") && call.name != "abi.QuoteToProto" {
+					continue
+				}
+				raw := make([]byte, len(txt), len(txt)+128)
+				copy(raw, txt)
+				for i := len(raw); i < cap(raw); i++ {
+					raw[:cap(raw)][i] = 0xE7
+				}
+				vo, _ := mon.Options(s.c)
+				po := policyFor(q, 32)
+				regs := snapshot(map[string]any{"raw": raw, "policy": po})
+				pv, st := mon.Guard(func() { call.f(nil, raw, vo, po) })
+				param := fmt.Sprintf("%s/%s/%s", s.name, enc, call.name)
+				prob := ""
+				if pv != "" {
+					prob = "panics: " + pv + "\n" + st
+				} else if d := changed(regs); d != "" {
+					prob = call.name + " wrote to its raw input (a " + enc + " rendering of the quote): " + d
+				}
+				if prob != "" {
+					x.Violation("no-write/text-input", param, prob, "verify", s.c)
+				}
+				x.Note("no-write/text-input", param, false, pv != "", prob == "")
 			}
 		}
 		// aliasing between the parsed message and the input buffer
